@@ -88,44 +88,27 @@ func (c *FileCache[MetadataT]) Destroy() {
 	c.subs.UnsubscribeAll()
 }
 
-func (c *FileCache[MetadataT]) ensureRemoveFile(path string) error {
-	stat, err := os.Stat(path)
-	if err != nil {
-		if errors.Is(err, os.ErrNotExist) {
-			// We only want to return critical errors, not if the file doesn't exist
-			return nil
-		}
-		slog.Error("Failed to stat cache file", "path", path, "error", err)
-		return fmt.Errorf("%w: failed to stat file '%s'", ErrCacheFileStat, path)
-	}
-
-	if err := os.Remove(path); err != nil {
-		// We checked earlier that the file exists, so if we get an error here, it is unexpected.
-		slog.Error("Failed to remove cache file", "path", path, "error", err)
-		return fmt.Errorf("%w: failed to remove file '%s'", ErrCacheFileRemove, path)
-	}
-
-	slog.Info("Removed file", "path", path)
-	size := stat.Size()
-
-	decrementCacheEntries()
-	decrementCacheSize(&c.byteSize, size)
-
-	return nil
-}
-
 // Ensures that both the cached file, its metadata and lock are removed without acquiring a lock.
 func (c *FileCache[MetadataT]) ensureRemove(key CacheKey) error {
 	filePath := filepath.Join(c.rootDir.Path, key.Hex)
 
-	if fileErr := c.ensureRemoveFile(filePath); fileErr != nil {
-		slog.Error("Failed to remove cached file", "key", key.Hex, "error", fileErr)
-		return fmt.Errorf("%w: failed to remove cached file '%s'", fileErr, filePath)
+	// A file that is already gone is not an error, the entry still has to be dropped from the books.
+	if err := os.Remove(filePath); err != nil && !errors.Is(err, os.ErrNotExist) {
+		slog.Error("Failed to remove cached file", "key", key.Hex, "path", filePath, "error", err)
+		return fmt.Errorf("%w: failed to remove cached file '%s'", ErrCacheFileRemove, filePath)
 	}
 
 	c.mu.Lock()
+	meta, exists := c.entriesMetadata[key]
 	delete(c.entriesMetadata, key) // Remove the entry from the map
 	c.mu.Unlock()
+
+	if exists {
+		// Subtract exactly what was added when the entry was stored.
+		decrementCacheEntries()
+		decrementCacheSize(&c.byteSize, meta.Size)
+		slog.Info("Removed file", "path", filePath)
+	}
 
 	return nil
 }
